@@ -298,7 +298,7 @@ class Scheduler:
                             sched.held[i] = max(sched.held.get(i, 0), sched.steps + int(2 ** sched.rng.uniform(14, 19)))
                             sched.budget = sched.seg_steps
                 if sched.starve and not sched.replay and frame.f_code.co_name in sched.hot_names \
-                        and sched.rng.random() < sched.starve * 0.02:
+                        and sched.rng.random() < sched.starve * 0.004:
                     # inside a hot function every line may be the one where this thread is held back
                     # while the others run on (a race window is often a single line wide)
                     sched.held[i] = max(sched.held.get(i, 0), sched.steps + int(2 ** sched.rng.uniform(10, 16)))
